@@ -47,6 +47,61 @@ HARNESSES = {
         "pkg": "rustybgp-packet", "target": "bgp::Attribute::canonical_flags", "complete": True,
         "bounds": "all 256 attribute type codes; loop-free", "timeout": 600,
     },
+    "c05_attr_decode_origin": {
+        "pkg": "rustybgp-packet", "target": "bgp::Attribute::decode (ORIGIN)", "complete": False,
+        "bounds": "attribute values of 0..=26 symbolic bytes, flags symbolic, four-octet-AS mode; unwind 28: accepted only if the length obeys the attribute's RFC rule, stored with the code and flags received, no panic",
+        "timeout": 600,
+    },
+    "c05_attr_decode_med": {
+        "pkg": "rustybgp-packet", "target": "bgp::Attribute::decode (MULTI_EXIT_DISC)", "complete": False,
+        "bounds": "attribute values of 0..=26 symbolic bytes, flags symbolic, four-octet-AS mode; unwind 28: accepted only if the length obeys the attribute's RFC rule, stored with the code and flags received, no panic",
+        "timeout": 600,
+    },
+    "c05_attr_decode_local_pref": {
+        "pkg": "rustybgp-packet", "target": "bgp::Attribute::decode (LOCAL_PREF)", "complete": False,
+        "bounds": "attribute values of 0..=26 symbolic bytes, flags symbolic, four-octet-AS mode; unwind 28: accepted only if the length obeys the attribute's RFC rule, stored with the code and flags received, no panic",
+        "timeout": 600,
+    },
+    "c05_attr_decode_atomic_aggregate": {
+        "pkg": "rustybgp-packet", "target": "bgp::Attribute::decode (ATOMIC_AGGREGATE)", "complete": False,
+        "bounds": "attribute values of 0..=26 symbolic bytes, flags symbolic, four-octet-AS mode; unwind 28: accepted only if the length obeys the attribute's RFC rule, stored with the code and flags received, no panic",
+        "timeout": 600,
+    },
+    "c05_attr_decode_aggregator": {
+        "pkg": "rustybgp-packet", "target": "bgp::Attribute::decode (AGGREGATOR)", "complete": False,
+        "bounds": "attribute values of 0..=26 symbolic bytes, flags symbolic, four-octet-AS mode; unwind 28: accepted only if the length obeys the attribute's RFC rule, stored with the code and flags received, no panic",
+        "timeout": 600,
+    },
+    "c05_attr_decode_community": {
+        "pkg": "rustybgp-packet", "target": "bgp::Attribute::decode (COMMUNITIES)", "complete": False,
+        "bounds": "attribute values of 0..=26 symbolic bytes, flags symbolic, four-octet-AS mode; unwind 28: accepted only if the length obeys the attribute's RFC rule, stored with the code and flags received, no panic",
+        "timeout": 600,
+    },
+    "c05_attr_decode_originator_id": {
+        "pkg": "rustybgp-packet", "target": "bgp::Attribute::decode (ORIGINATOR_ID)", "complete": False,
+        "bounds": "attribute values of 0..=26 symbolic bytes, flags symbolic, four-octet-AS mode; unwind 28: accepted only if the length obeys the attribute's RFC rule, stored with the code and flags received, no panic",
+        "timeout": 600,
+    },
+    "c05_attr_decode_cluster_list": {
+        "pkg": "rustybgp-packet", "target": "bgp::Attribute::decode (CLUSTER_LIST)", "complete": False,
+        "bounds": "attribute values of 0..=26 symbolic bytes, flags symbolic, four-octet-AS mode; unwind 28: accepted only if the length obeys the attribute's RFC rule, stored with the code and flags received, no panic",
+        "timeout": 600,
+    },
+    "c05_attr_decode_ext_community": {
+        "pkg": "rustybgp-packet", "target": "bgp::Attribute::decode (EXTENDED COMMUNITIES)", "complete": False,
+        "bounds": "attribute values of 0..=26 symbolic bytes, flags symbolic, four-octet-AS mode; unwind 28: accepted only if the length obeys the attribute's RFC rule, stored with the code and flags received, no panic",
+        "timeout": 600,
+    },
+    "c05_attr_decode_as4_aggregator": {
+        "pkg": "rustybgp-packet", "target": "bgp::Attribute::decode (AS4_AGGREGATOR)", "complete": False,
+        "bounds": "attribute values of 0..=26 symbolic bytes, flags symbolic, four-octet-AS mode; unwind 28: accepted only if the length obeys the attribute's RFC rule, stored with the code and flags received, no panic",
+        "timeout": 600,
+    },
+    "c05_attr_decode_large_community": {
+        "pkg": "rustybgp-packet", "target": "bgp::Attribute::decode (LARGE_COMMUNITY)", "complete": False,
+        "bounds": "attribute values of 0..=26 symbolic bytes, flags symbolic, four-octet-AS mode; unwind 28: accepted only if the length obeys the attribute's RFC rule, stored with the code and flags received, no panic",
+        "timeout": 600,
+    },
     # ---------------------------------------------------------------- C06
     "c06_id_alloc_unique": {
         "pkg": "rustybgp-table", "target": "IdAllocator::alloc", "complete": False,
